@@ -6,6 +6,7 @@ import MosnVerif.Model.PoolH2
 import MosnVerif.Drive.C09Win
 import MosnVerif.Drive.C09MxWin
 import MosnVerif.Drive.C09Bnd
+import MosnVerif.Drive.C09DialWin
 namespace MosnVerif.Drive.C09
 open MosnVerif.Drive MosnVerif.Model.Pool
 
@@ -320,6 +321,7 @@ def run (caseToks impl : List String) : String :=
   | ["h2w", mr, ops] => C09MxWin.runKind true "1" mr ops impl
   | ["bnd", mr, ops] => C09Bnd.run mr ops impl
   | ["conc", _, _, mr, _, _, _] => conc mr impl
+  | ["dw", kind, mc, mr, ops] => C09DialWin.run kind mc mr ops impl
   | _ => "E E unknown-kind"
 
 end MosnVerif.Drive.C09
